@@ -90,10 +90,10 @@ REENTRANT_DROP = True
 # `arrive … clonepanic=1`: the value the request's inner call produces panics the first time it is cloned (the leader's
 # completing poll clones it for the waiters and unwinds). OPEN FINDING on the tree this was written against
 # (notes/strengthen-coalesce-w5.md): `registration.key.take()` precedes the clone, so the key stays registered for ever.
-# Off by default until the repair (notes/strengthen-coalesce-w5-proposed-repair.diff) is in: with VERIF_C11_CLONE_PANIC=1
+# On by default since the repair (/repo f959a1c, drafted as notes/strengthen-coalesce-w5-proposed-repair.diff); with VERIF_C11_CLONE_PANIC=0
 # the generator emits the word on 8% of the arrivals and corpus/coalesce/clone_panic_wedges_key.ops is run; the model
 # (Op.bomb / clonePanic, theorem leader_clone_panic_frees_key_at_once) specifies the conforming behaviour.
-CLONE_PANIC = os.environ.get("VERIF_C11_CLONE_PANIC", "0") == "1"
+CLONE_PANIC = os.environ.get("VERIF_C11_CLONE_PANIC", "1") == "1"   # on since the repair f959a1c
 
 
 # ----------------------------------------------------------------------------- generator
